@@ -1,7 +1,221 @@
+import AuModel.QuantityOps
+import Generated.Classes
 import Driver.Util
-open Au
+open Au Au.C13
 
-def dispatchC13 : List String → Option String
+/-! Driver commands for C13 (AuModel.Layout over Generated.Classes, AuModel.QuantityOps).
+
+  c13 repsize <R>                         → size=<n> align=<n>
+  c13 layout <Quantity|QuantityPoint> <R> → size= align= tc= td= sl= dflt=
+  c13 op <op> <R> <T> <a> <b> <unitless>  → gcc= clang= ty= val= rawok= rawty= rawval=
+  c13 sweep8 <op> <R> <T>                 → n= defined= hash= rawhash=
+  c13 rt <R> <x>                          → q=<bits> pt=<bits|nan|ub|->
+
+  Values: integers in decimal; floating-point values as `0x…` bit patterns (`nan` for a NaN result:
+  payload propagation is not modelled); `-` where the value is not modelled (`long double`). -/
+
+namespace C13Cmd
+
+/-- IEEE semantics of `float` / `double` through Lean's `Float32` / `Float` (x86-64 SSE, the same
+instructions the C++ compilers emit).  `long double` is not modelled: the commands never evaluate a
+value that involves `f80`. -/
+def f32 (x : Nat) : Float32 := Float32.ofBits x.toUInt32
+def f64 (x : Nat) : Float := Float.ofBits x.toUInt64
+
+def fbin (k : FltK) (op : ArOp) (x y : Nat) : Nat :=
+  match k with
+  | .f32 =>
+    let a := f32 x; let b := f32 y
+    (match op with | .add => a + b | .sub => a - b | .mul => a * b | .div => a / b | .mod => a).toBits.toNat
+  | .f64 =>
+    let a := f64 x; let b := f64 y
+    (match op with | .add => a + b | .sub => a - b | .mul => a * b | .div => a / b | .mod => a).toBits.toNat
+  | .f80 => 0
+
+def fcmp (k : FltK) (op : CmpOp) (x y : Nat) : Bool :=
+  match k with
+  | .f32 =>
+    let a := f32 x; let b := f32 y
+    (match op with | .eq => a == b | .ne => !(a == b) | .lt => decide (a < b) | .le => decide (a ≤ b)
+                   | .gt => decide (b < a) | .ge => decide (b ≤ a))
+  | .f64 =>
+    let a := f64 x; let b := f64 y
+    (match op with | .eq => a == b | .ne => !(a == b) | .lt => decide (a < b) | .le => decide (a ≤ b)
+                   | .gt => decide (b < a) | .ge => decide (b ≤ a))
+  | .f80 => false
+
+def fneg (k : FltK) (x : Nat) : Nat :=
+  match k with
+  | .f32 => (-(f32 x)).toBits.toNat
+  | .f64 => (-(f64 x)).toBits.toNat
+  | .f80 => 0
+
+def fofInt (k : FltK) (_ : IntTy) (v : Int) : Nat :=
+  match k with
+  | .f32 => (Float32.ofInt v).toBits.toNat
+  | .f64 => (Float.ofInt v).toBits.toNat
+  | .f80 => 0
+
+def fcvt (a b : FltK) (x : Nat) : Nat :=
+  match a, b with
+  | .f32, .f64 => (f32 x).toFloat.toBits.toNat
+  | .f64, .f32 => (f64 x).toFloat32.toBits.toNat
+  | _, _ => x
+
+def ieee : FOps := ⟨fbin, fcmp, fneg, fofInt, fcvt⟩
+
+def hexDigits (n : Nat) : String := String.ofList (Nat.toDigits 16 n)
+
+def isNaNBits (k : FltK) (x : Nat) : Bool :=
+  match k with
+  | .f32 => (x / 2 ^ 23) % 256 == 255 && x % 2 ^ 23 != 0
+  | .f64 => (x / 2 ^ 52) % 2048 == 2047 && x % 2 ^ 52 != 0
+  | .f80 => false
+
+def parseVal? (t : RepTy) (s : String) : Option Val :=
+  match t with
+  | .int ty =>
+    match parseInt? s with
+    | some v => if decide (ty.inRange v) then some (.int v) else none
+    | none => none
+  | .flt k =>
+    if s.startsWith "0x" then
+      let ds := (s.drop 2).toString.toList
+      if ds.isEmpty || !ds.all (fun c => c.isDigit || ('a' ≤ c && c ≤ 'f')) then none
+      else
+        let n := ds.foldl (fun acc c => acc * 16 + (if c.isDigit then c.toNat - '0'.toNat else c.toNat - 'a'.toNat + 10)) 0
+        if n < 2 ^ (8 * (if k == .f80 then 10 else k.size)) then some (.flt n) else none
+    else none
+
+def resTyStr : Option ResTy → String
+  | none => "-"
+  | some (.val r) => r.name
+  | some .bool => "bool"
+  | some (.ref r) => "ref:" ++ r.name
+
+def resKind : Option ResTy → Option FltK
+  | some (.val (.flt k)) => some k
+  | some (.ref (.flt k)) => some k
   | _ => none
 
-/-! Driver commands for C13. -/
+def valStr (ty : Option ResTy) (v : Eval Val) : String :=
+  match v with
+  | .ub _ => "ub"
+  | .ok (.int x) => toString x
+  | .ok (.bool b) => b01 b
+  | .ok (.flt x) =>
+    match resKind ty with
+    | some k => if isNaNBits k x then "nan" else "0x" ++ hexDigits x
+    | none => "0x" ++ hexDigits x
+
+def opOfName? : String → Option OpName
+  | "eq" => some (.cmp .eq) | "ne" => some (.cmp .ne) | "lt" => some (.cmp .lt)
+  | "le" => some (.cmp .le) | "gt" => some (.cmp .gt) | "ge" => some (.cmp .ge)
+  | "add" => some (.addsub .add) | "sub" => some (.addsub .sub) | "mod" => some .mod
+  | "pos" => some (.un .pos) | "neg" => some (.un .neg)
+  | "addas" => some (.addsubAs .add) | "subas" => some (.addsubAs .sub)
+  | "mulas" => some (.scaleAs .mul) | "divas" => some (.scaleAs .div)
+  | "mulr" => some (.scalarR .mul) | "divr" => some (.scalarR .div)
+  | "mull" => some .mulL | "divl" => some .divL
+  | _ => none
+
+def evalOp (F : FOps) (o : OpName) (R T : RepTy) (a b : Val) (unitless : Bool) : OpResult × OpResult :=
+  (qOp F o R T a b unitless, rawOp F o R T a b)
+
+def involvesF80 (R T : RepTy) : Bool := R == .flt .f80 || T == .flt .f80
+
+def cmdOp (args : List String) : String :=
+  match args with
+  | [os, rs, ts, as, bs, us] =>
+    match opOfName? os, RepTy.ofName? rs, RepTy.ofName? ts with
+    | some o, some R, some T =>
+      if o.sameType && R != T then "bad-op" else
+      if us != "0" && us != "1" then "bad-op" else
+      match parseVal? R as, parseVal? T bs with
+      | some a, some b =>
+        let (q, r) := evalOp ieee o R T a b (us == "1")
+        let nv := involvesF80 R T
+        let qv := if q.ty.isNone then "-" else if nv then "-" else valStr q.ty q.val
+        let rv := if r.ty.isNone then "-" else if nv then "-" else valStr r.ty r.val
+        s!"gcc={b01 q.verdict.gcc} clang={b01 q.verdict.clang} ty={resTyStr q.ty} val={qv} rawok={b01 r.verdict.gcc} rawty={resTyStr r.ty} rawval={rv}"
+      | _, _ => "bad-op"
+    | _, _, _ => "bad-op"
+  | _ => "bad-op"
+
+def word (v : Eval Val) : UInt64 :=
+  match v with
+  | .ub _ => 0xDEADBEEFDEADBEEF
+  | .ok (.int x) => UInt64.ofNat (x % (2 ^ 64 : Int)).toNat
+  | .ok (.bool b) => if b then 1 else 0
+  | .ok (.flt x) => UInt64.ofNat x
+
+def mix (h w : UInt64) : UInt64 := (h ^^^ w) * 0x100000001b3
+
+def range (t : IntTy) : List Int := (List.range (t.hi - t.lo + 1).toNat).map (fun (i : Nat) => t.lo + Int.ofNat i)
+
+def cmdSweep8 (args : List String) : String :=
+  match args with
+  | [os, rs, ts] =>
+    match opOfName? os, RepTy.ofName? rs, RepTy.ofName? ts with
+    | some o, some (.int tr), some (.int tt) =>
+      if tr.bits != 8 || tt.bits != 8 then "bad-op" else
+      if o.sameType && tr != tt then "bad-op" else
+      let R := RepTy.int tr; let T := RepTy.int tt
+      let unary := match o with | .un _ => true | _ => false
+      let bsl := if unary then [0] else range tt
+      let init : UInt64 × UInt64 × Nat × Nat := (0xcbf29ce484222325, 0xcbf29ce484222325, 0, 0)
+      let (h, rh, n, d) := (range tr).foldl (fun acc a =>
+        bsl.foldl (fun (acc : UInt64 × UInt64 × Nat × Nat) b =>
+          let (h, rh, n, d) := acc
+          let (q, r) := evalOp ieee o R T (.int a) (.int b) true
+          let def_ := match q.val with | .ok _ => 1 | .ub _ => 0
+          (mix h (word q.val), mix rh (word r.val), n + 1, d + def_)) acc) init
+      s!"n={n} defined={d} hash={h} rawhash={rh}"
+    | _, _, _ => "bad-op"
+  | _ => "bad-op"
+
+def cmdRepsize (args : List String) : String :=
+  match args with
+  | [rs] =>
+    match RepTy.ofName? rs with
+    | some R => s!"size={R.size} align={R.align}"
+    | none => "bad-op"
+  | _ => "bad-op"
+
+def cmdLayout (args : List String) : String :=
+  match args with
+  | [cs, rs] =>
+    match Generated.Classes.env.find cs, RepTy.ofName? rs with
+    | some d, some R =>
+      let f := classFacts Generated.Classes.env d R
+      let (sz, al) := match f.layout with
+        | some l => (toString l.size, toString l.align)
+        | none => ("-", "-")
+      let dv := match f.dflt with | .zero => "zero" | .indeterminate => "indeterminate" | .unknown => "unknown"
+      s!"size={sz} align={al} tc={b01 f.trivCopy} td={b01 f.trivDtor} sl={b01 f.stdLayout} dflt={dv}"
+    | _, _ => "bad-op"
+  | _ => "bad-op"
+
+def cmdRt (args : List String) : String :=
+  match args with
+  | [rs, xs] =>
+    match RepTy.ofName? rs with
+    | some R =>
+      match parseVal? R xs with
+      | some x =>
+        let q := qRoundTrip R x
+        let p := if R == .flt .f80 then "-" else valStr (some (.val R)) (ptRoundTrip ieee R x)
+        s!"q={valStr none (.ok q)} pt={p}"
+      | none => "bad-op"
+    | none => "bad-op"
+  | _ => "bad-op"
+
+end C13Cmd
+
+def dispatchC13 : List String → Option String
+  | "c13" :: "op" :: args => some (C13Cmd.cmdOp args)
+  | "c13" :: "sweep8" :: args => some (C13Cmd.cmdSweep8 args)
+  | "c13" :: "repsize" :: args => some (C13Cmd.cmdRepsize args)
+  | "c13" :: "layout" :: args => some (C13Cmd.cmdLayout args)
+  | "c13" :: "rt" :: args => some (C13Cmd.cmdRt args)
+  | _ => none
